@@ -102,3 +102,41 @@ Proof.
   - replace (B + N.of_nat 0) with B by lia. replace (Bb + 0) with Bb by lia. apply (G_count c be s g B Bb t HG).
   - contradiction.
 Qed.
+
+(* ------------------------------------------------------------------ every restart-free operation keeps every persisted position good *)
+Lemma PG_step c be s g B Bb o : cfg_ok c -> G c s g B Bb -> PG c s -> op_ok c o ->
+  B + N.of_nat (length (offered o)) <= u64_max -> Bb + sum_len (offered o) <= u64_max ->
+  PG c (fst (step (env_of c Strict be) s o)).
+Proof.
+  intros Hc HG Hpg Hok HB HBb. pose proof HG as (Hn & _ & _ & _ & Hall).
+  pose proof (G_step c be s g B Bb o Hc HG Hok HB HBb) as Hstep.
+  destruct o as [t e | t es | t ck | t maxb ck start | t | ].
+  - assert (Hcs : forall bid, (forall w, ts_writer (get_ts s (t_id t)) = Some w -> bid = b_id w) ->
+                    (ts_writer (get_ts s (t_id t)) = None -> bid = a_next (s_alloc s)) -> CS (get_ts s (t_id t)) bid (a_next (s_alloc s))).
+    { exact (TG_CS c _ _ _ _ _ (Hall (t_id t)) Hn). }
+    cbn [step env_of v_cfg v_mode v_backend] in *.
+    destruct (append c s t e) as [s' r] eqn:Es. destruct Hstep as (_ & _ & HG'). cbn [fst].
+    assert (Hs' : s' = fst (append c s t e)) by (now rewrite Es).
+    eapply (PG_write c s s' g _ B Bb _ _ t Hc HG HG' Hpg).
+    + intros x. pose proof (append_grow_nc c (Nst x s) t e Hc (proj1 (G_Rel x c s g B Bb HG))) as Hg.
+      rewrite (proj1 (append_Nst x c s t e Hn Hcs)) in Hg. cbn [fst] in Hg. rewrite !get_Nst in Hg. now rewrite Hs'.
+    + rewrite Hs'. exact (proj2 (append_Nst false c s t e Hn Hcs)).
+    + intros t' Hne. rewrite Hs'. now apply append_others.
+    + now apply ledger_step_write_del.
+  - assert (Hcs : forall bid, (forall w, ts_writer (get_ts s (t_id t)) = Some w -> bid = b_id w) ->
+                    (ts_writer (get_ts s (t_id t)) = None -> bid = a_next (s_alloc s)) -> CS (get_ts s (t_id t)) bid (a_next (s_alloc s))).
+    { exact (TG_CS c _ _ _ _ _ (Hall (t_id t)) Hn). }
+    cbn [step env_of v_cfg v_mode v_backend] in *.
+    destruct (batch c be s t es) as [s' r] eqn:Es. destruct Hstep as (_ & _ & HG'). cbn [fst].
+    assert (Hs' : s' = fst (batch c be s t es)) by (now rewrite Es).
+    eapply (PG_write c s s' g _ B Bb _ _ t Hc HG HG' Hpg).
+    + intros x. pose proof (batch_grow_nc c be (Nst x s) t es Hc (proj1 (G_Rel x c s g B Bb HG))) as Hg.
+      rewrite (proj1 (batch_Nst x c be s t es Hn Hcs)) in Hg. cbn [fst] in Hg. rewrite !get_Nst in Hg. now rewrite Hs'.
+    + rewrite Hs'. exact (proj2 (batch_Nst false c be s t es Hn Hcs)).
+    + intros t' Hne. rewrite Hs'. now apply batch_others.
+    + now apply ledger_step_write_del.
+  - eapply PG_read; eauto.
+  - eapply PG_batch_read; eauto.
+  - exact Hpg.
+  - contradiction.
+Qed.
